@@ -299,7 +299,8 @@ def project(events, run_index=0):
             okret = e["outcome"] == "ok"
             p = dict(kind=kind, rec=bool(e["rec"]), ntc=len(tcs), outcome="ok" if okret else e["outcome"],
                      fc=e["fc_after"], nlogged=e["nlogged"],
-                     uid=uid_of(e["u"], True), uR=uR(e["u"]), infilt=bool(e.get("infilt", True)))
+                     uid=uid_of(e["u"], True), uR=uR(e["u"]), infilt=bool(e.get("infilt", True)),
+                     repstep=bool(e.get("repstep", False)))
             if tc is not None:
                 p["n"] = tc["n"]
                 p["pid"] = pid_of(tc["x"], True)
@@ -535,7 +536,7 @@ def project(events, run_index=0):
             ev("Result", **_project_result(e, sc, rb, cons_ev, mode, D, lb, ub, pid_of, xR, RY, RS, consf, events))
         elif t == "Crash":
             fr = e.get("frame") or ""
-            ev("Crash", type=e["type"], frame=fr, injected=bool(e["type"] in ("InjectedTargetError", "InjectedTargetError2")),
+            ev("Crash", type=e["type"], frame=fr, injected=bool(e["type"] in ("InjectedTargetError", "InjectedTargetError2", "InjectedStopIteration")),
                ncalls=e["ncalls"], fc=e["fc"],
                loggedfinite=_logged_finite(e.get("final")),
                nlog=int(e["final"]["Xn"] + 1) if e.get("final") else -1)
@@ -664,7 +665,9 @@ def _final_guards(final, lb, ub, lbI, ubI, events, mode):
             if e["tcalls"] and e["tcalls"][0].get("y") is not None:
                 if final["Y"][j] != e["tcalls"][0]["y"] or final["Y_orig"][j] != e["tcalls"][0]["y"]:
                     vals = False
-    nev_total = int(np.sum(final["n_evals"]))
+    nev_arr = np.asarray(final["n_evals"], dtype=float)
+    # total verdicts: a corrupted counter table (NaN / inf) is a value the clause rejects, not a crash of the projection
+    nev_total = int(np.sum(nev_arr)) if np.all(np.isfinite(nev_arr)) else -1
     nok = sum(1 for e in events if e["ev"] == "Eval" and e["outcome"] == "ok")
     return dict(n=int(n), inint=in_int, inorig=in_orig, mapsback=bool(maps), order=bool(order),
                 vals=bool(vals), nevsum=nev_total, nok=int(nok), fc=int(final["func_count"]))
